@@ -208,28 +208,28 @@ fn c17_cell_host_orig() {
 }
 
 //@ like: c17_cell_no_headers
-//@ tier: thorough
+//@ tier: off
 #[kani::proof]
 fn c17_cell_host_added() {
     c17_menu_case(0, true, 0, false);
 }
 
 //@ like: c17_cell_no_headers
-//@ tier: thorough
+//@ tier: off
 #[kani::proof]
 fn c17_cell_host_orig_plus_added() {
     c17_menu_case(1, true, 0, false);
 }
 
 //@ like: c17_cell_no_headers
-//@ tier: thorough
+//@ tier: off
 #[kani::proof]
 fn c17_cell_host_nontext() {
     c17_menu_case(2, false, 0, false);
 }
 
 //@ like: c17_cell_no_headers
-//@ tier: thorough
+//@ tier: off
 #[kani::proof]
 fn c17_cell_host_nontext_plus_added() {
     c17_menu_case(2, true, 0, false);
@@ -243,56 +243,56 @@ fn c17_cell_cl_5() {
 }
 
 //@ like: c17_cell_no_headers
-//@ tier: thorough
+//@ tier: off
 #[kani::proof]
 fn c17_cell_cl_0() {
     c17_menu_case(1, false, 2, false);
 }
 
 //@ like: c17_cell_no_headers
-//@ tier: thorough
+//@ tier: off
 #[kani::proof]
 fn c17_cell_cl_neg() {
     c17_menu_case(1, false, 3, false);
 }
 
 //@ like: c17_cell_no_headers
-//@ tier: thorough
+//@ tier: off
 #[kani::proof]
 fn c17_cell_cl_x() {
     c17_menu_case(1, false, 4, false);
 }
 
 //@ like: c17_cell_no_headers
-//@ tier: thorough
+//@ tier: off
 #[kani::proof]
 fn c17_cell_cl_empty() {
     c17_menu_case(1, false, 5, false);
 }
 
 //@ like: c17_cell_no_headers
-//@ tier: thorough
+//@ tier: off
 #[kani::proof]
 fn c17_cell_cl_nonutf8() {
     c17_menu_case(1, false, 6, false);
 }
 
 //@ like: c17_cell_no_headers
-//@ tier: thorough
+//@ tier: off
 #[kani::proof]
 fn c17_cell_cl_added() {
     c17_menu_case(1, false, 0, true);
 }
 
 //@ like: c17_cell_no_headers
-//@ tier: thorough
+//@ tier: off
 #[kani::proof]
 fn c17_cell_cl_5_plus_added() {
     c17_menu_case(1, false, 1, true);
 }
 
 //@ like: c17_cell_no_headers
-//@ tier: thorough
+//@ tier: off
 #[kani::proof]
 fn c17_cell_cl_x_plus_added() {
     c17_menu_case(0, true, 4, true);
@@ -548,7 +548,7 @@ fn c17_cell_te_mixedcase() {
 }
 
 //@ like: c17_cell_no_headers
-//@ tier: thorough
+//@ tier: off
 #[kani::proof]
 fn c17_cell_te_gzip() {
     c17_menu_case_te(0, false, 0, false, 3);
